@@ -17,6 +17,7 @@ import scipy.integrate
 
 import common
 import c13_cover
+import c13_ext
 from common import coq_lit, Nat
 
 SZ = np.diag([0.5, -0.5])
@@ -427,7 +428,9 @@ def stop_inputs(case):
     vumps = case['engine'].startswith('vumps')
     nsc = opts.get('N_sweeps_check', 1 if (fin or vumps) else 10)
     cl = opts.get('chi_list')
-    chis = None if cl is None else sorted((int(k), int(v)) for k, v in cl.items())
+    # ("a value of None is initialized to the current value of trunc_params['chi_max'] at algorithm initialization")
+    chi00 = (opts.get('trunc_params') or {}).get('chi_max')
+    chis = None if cl is None else sorted((int(k), int(chi00 if v is None else v)) for k, v in cl.items())
     mixer = opts.get('mixer', case['engine'] == 'single')
     mp = opts.get('mixer_params') or {}
     if vumps:
@@ -552,8 +555,17 @@ def main(ctx):
     cases += [gen_inf_hc(rng, k) for k in range(ctx.pick(8, 48))]
     cases += [gen_chi_one(rng, k) for k in range(ctx.pick(16, 120) * mult)]
     cases += [gen_inf_noenv(rng) for _ in range(ctx.pick(12, 60))]
+    # option-space strata (harness/c13_ext.py): every feature of the lists once (quick) / several times (thorough)
+    nf, ni, nv = len(c13_ext.FINITE_FEATURES), len(c13_ext.INFINITE_FEATURES), len(c13_ext.VUMPS_FEATURES)
+    cases += [c13_ext.gen_finite(rng, k, gen_case) for k in range(ctx.pick(nf, 10 * nf) * mult)]
+    cases += [c13_ext.gen_infinite(rng, k) for k in range(ctx.pick(ni, 4 * ni))]
+    # (VUMPS runs are the most expensive ones: the quick tier rotates through the features with the seed)
+    cases += [c13_ext.gen_vumps(rng, k + 4 * ctx.seed) for k in range(ctx.pick(4, 3 * nv))]
     for c in common.corpus_cases('C13'):
         cases.append(c['case'])
+    if os.environ.get('VERIF_C13_STREAMS'):     # debugging aid: only the named streams (the cases of a stream do not depend on the selection)
+        keep = set(os.environ['VERIF_C13_STREAMS'].split(','))
+        cases = [c for c in cases if c.get('stream', 'schedule' if c.get('schedule_only') else 'env-trace-inf' if c.get('trace_inf') else 'dmrg-' + c['bc']) in keep]
     results, cover_hits = run_chunks(ctx, cases)
     coq_t, coq_t_idx = [], []
     coq_s, coq_s_idx, coq_r, coq_r_idx = [], [], [], []
@@ -567,6 +579,29 @@ def main(ctx):
         if 'runner_error' in r:
             ctx.fail('correspondence', 'runner failed: ' + r['runner_error'][-700:], {'stream': stream, 'case': case})
             continue
+        if case.get('ext'):
+            # ---- option-space strata (harness/c13_ext.py)
+            if 'stop' in r and 'error' not in r:
+                cs = case if not case.get('chi_list_fn') else dict(case, options=dict(case['options'], chi_list=r.get('chi_list_fn')))
+                sp = stop_oracle(cs, r)
+                if sp:
+                    ctx.fail('oracle', '; '.join(sp[:3]), {'stream': stream, 'case': case}, match_key='C13:' + stream + ':' + case['feature'] + ':run-protocol')
+                coq_t.append(stop_lit(cs, r))
+                coq_t_idx.append(idx)
+            if case['bc'] == 'finite':
+                c13_ext.check_finite(ctx, case, r, (dense_H, sector_mask, h_symmetry_labels), hist)
+                continue
+            hist['feature_' + case['feature']] = hist.get('feature_' + case['feature'], 0) + 1
+            if case.get('expect_error') or 'error' in r:
+                ctx.count(stream, [case['feature'], case['model'], case['L'], case['engine'], case['options']], nontrivial=True)
+                if not case.get('expect_error'):
+                    ctx.fail('oracle', 'feature %s: engine raised %s' % (case['feature'], r['error']), {'stream': stream, 'case': case, 'tb': r.get('tb')},
+                             match_key='C13:raises')
+                elif not str(r.get('error', '')).startswith(case['expect_error']):
+                    ctx.fail('oracle', 'feature %s: documented %s not raised (%s)' % (case['feature'], case['expect_error'], r.get('error') or 'run returned'),
+                             {'stream': stream, 'case': case}, match_key='C13:' + stream + ':' + case['feature'])
+                continue
+            # (the infinite clauses are evaluated below, together with the other infinite streams)
         if 'error' in r:
             tb = r.get('tb') or ''
             hc = bool(case['model'].get('explicit_plus_hc'))
@@ -745,7 +780,23 @@ def main(ctx):
             # a run that stopped at max_sweeps without the engine declaring convergence: the E returned by an infinite run is the energy
             # gained per added site in the last iteration, which equals <H>/site of the state only at the fixed point.  Only in the stream
             # without environment sweeps; all other infinite streams require agreement in any case.
-            converged = not (stream == 'dmrg-infinite-no-env-sweeps' and r['sweeps'] > opts.get('max_sweeps', 1000))
+            converged = not (stream in ('dmrg-infinite-no-env-sweeps', 'dmrg-infinite-options') and r['sweeps'] > opts.get('max_sweeps', 1000))
+            if case.get('ext'):
+                allw = ' | '.join((r.get('warnings') or []) + (r.get('log_warnings') or []))
+                if case.get('expect_warning') and case['expect_warning'] not in allw:
+                    probs.append('documented warning %r not issued (got: %s)' % (case['expect_warning'], allw[:300]))
+                if case.get('expect_env_age0') is not None and r.get('env_age0') != [case['expect_env_age0']] * 2:
+                    probs.append('init_env_data start_env_sites = %d: ages of the initial LP / RP are %s' % (case['expect_env_age0'], r.get('env_age0')))
+                if r.get('mixer_end') or r.get('S_ndim') != 1:
+                    probs.append('infinite run returned with an active mixer / non-diagonal singular values')
+                if stream == 'vumps-options' and r.get('returned_type') != 'MPS':
+                    probs.append('VUMPS run() returned a %s, documented: MPS' % r.get('returned_type'))
+                for kk in range(int(case.get('rerun', 0))):
+                    t_ = 'run%d_' % kk
+                    if r[t_ + 'norm_test'] > 1e-6 or r[t_ + 'E_mpo'] < e_exact - 1e-7 or abs(r[t_ + 'E_mpo'] - e_exact) > 5e-3 or \
+                            (abs(r[t_ + 'E'] - r[t_ + 'E_mpo']) > 1e-4 and r[t_ + 'sweeps'] <= opts.get('max_sweeps', 1000)):
+                        probs.append('run %d of the same engine: E = %.10g, <H>/site = %.10g, exact %.10g, norm_test %.2e'
+                                     % (kk, r[t_ + 'E'], r[t_ + 'E_mpo'], e_exact, r[t_ + 'norm_test']))
             hist['inf_not_converged_at_max_sweeps'] = hist.get('inf_not_converged_at_max_sweeps', 0) + (not converged)
             if case['engine'] == 'single' and (nsc // 2) % 2 == 1 and abs(r['E'] / r['E_mpo'] - 1.5) < 1e-3 and r['E_mpo'] >= e_exact - 1e-7 \
                     and abs(r['E_mpo'] - e_exact) < 5e-3:
@@ -779,11 +830,12 @@ def main(ctx):
                                  '<H>/site = %.10g' % (r['E'], r['E_mpo'], ref['E'], ref['E_mpo']))
             if abs(r['E_bond'] - r['E_mpo']) > 1e-8:
                 probs.append('infinite: mean bond energy %.10g differs from the MPO expectation value %.10g' % (r['E_bond'], r['E_mpo']))
-            ctx.count(stream, [case['model'], case['engine'], opts], nontrivial=True,
-                      sample={'model': m, 'engine': case['engine'], 'E': r['E'], 'exact': float(e_exact), 'chi': r['chi']})
+            ctx.count(stream, [case.get('feature'), case['model'], case['L'], case['engine'], opts], nontrivial=True,
+                      sample={'model': m, 'engine': case['engine'], 'E': r['E'], 'exact': float(e_exact), 'chi': r['chi'], 'feature': case.get('feature')})
         if probs:
-            ctx.fail('oracle', '; '.join(probs[:4]), {'stream': stream, 'case': case, 'impl': {k: r.get(k) for k in ('E', 'E_mpo', 'sweeps', 'chi', 'N_lanczos_last')}},
-                     match_key='C13:' + stream)
+            ctx.fail('oracle', ('feature %s: ' % case['feature'] if case.get('feature') else '') + '; '.join(probs[:4]),
+                     {'stream': stream, 'case': case, 'impl': {k: r.get(k) for k in ('E', 'E_mpo', 'sweeps', 'chi', 'N_lanczos_last', 'norm_test', 'warnings', 'log_warnings')}},
+                     match_key='C13:' + stream + (':' + case['feature'] if case.get('feature') else ''))
     bad, err = common.coq_failing_indices('cases_c13_s', ['Base.Prelude', 'Model.Sweep'], 'check_schedule', coq_s)
     if err:
         ctx.fail('correspondence', 'model evaluation failed: ' + err[-600:], None)
@@ -821,6 +873,15 @@ def main(ctx):
                  {'stream': 'stop-trace', 'case': cases[coq_t_idx[b]], 'impl': results[coq_t_idx[b]].get('stop')})
     if os.environ.get('VERIF_C13_DUMP'):      # debugging aid: all failures with their cases
         json.dump(ctx.violations, open(os.environ['VERIF_C13_DUMP'], 'w'), indent=1, default=str)
+    # ---- coverage table: public functions / methods and explicit branches of the anchored files reached by the runner processes
+    table, unclassified = c13_cover.build_table(common.REPO, cover_hits)
+    ctx.cov['anchored_code_coverage'] = table
+    if not os.environ.get('VERIF_C13_STREAMS'):
+        if not table['runner_processes_with_recording']:
+            ctx.fail('correspondence', 'no runner process recorded executed lines (coverage table empty)', None)
+        for name in unclassified[:8]:
+            ctx.fail('correspondence', 'public function of the anchored code is neither executed by any stream nor classified as outside the '
+                     'property (harness/c13_cover.py EXCLUDED): ' + name, None)
     ctx.cov['stop_traces'] = len(coq_t)
     ctx.cov['traces_validated_against_impl'] = len(coq_s) + len(coq_r) + len(coq_q) + len(coq_i) + len(coq_t)
     ctx.cov['input_distribution'] = hist
